@@ -19,10 +19,19 @@ run_lane() {
   while read kind f; do
     if [ $kind = M ]; then prop=$(basename $f | cut -d- -f1); name=$(basename $f .patch); else name=$(basename $(dirname $f)); prop=${name%%-*}; fi
     git -C $wt checkout -q -- . ; git -C $wt clean -fdq
+    # baseline, once per property and under the same load: what fails on the unchanged tree when
+    # nothing is retried (timeouts); such obligations do not count as a detection below
+    if mkdir $work/base.$prop.lock 2>/dev/null; then
+      VERIF_REPO=$wt VERIF_SCRATCH=/var/tmp/verif-scratch/lane$lane ./check $prop --tier quick 2>&1 | grep VIOLATION | sed 's/.*replay=.verif.replays.[A-Z0-9]*.//; s/\.txt.*//' > $work/base.$prop.tmp
+      mv $work/base.$prop.tmp $work/base.$prop
+    fi
+    while [ ! -f $work/base.$prop ]; do sleep 5; done
     if ! git -C $wt apply /verif/$f 2>/dev/null; then echo "$kind $name: PATCH DOES NOT APPLY"; continue; fi
     out=$(VERIF_REPO=$wt VERIF_SCRATCH=/var/tmp/verif-scratch/lane$lane ./check $prop --tier quick 2>&1); rc=$?
-    viol=$(echo "$out" | grep VIOLATION | sed 's/.*replay=.verif.replays.[A-Z0-9]*.//; s/\.txt.*//' | head -2 | tr '\n' ' ')
+    viol=$(echo "$out" | grep VIOLATION | sed 's/.*replay=.verif.replays.[A-Z0-9]*.//; s/\.txt.*//' | grep -vxFf $work/base.$prop | head -2 | tr '\n' ' ')
+    if [ $rc = 1 ] && [ -z "$viol" ]; then rc=9; fi
     case $rc in
+      9) echo "$kind $name: MISSED by check $prop (only obligations that also time out on the unchanged tree without retries)";;
       1) echo "$kind $name: DETECTED by check $prop: $viol";;
       2) echo "$kind $name: UNDECIDED by check $prop (rc=2, $(echo "$out" | grep -c 'stale contract') stale clause(s))";;
       *) echo "$kind $name: MISSED by check $prop (rc=$rc)";;
